@@ -61,6 +61,9 @@ func runC17(seed int64, count int) {
 		emit("#case c17-%d-r%d-w%d", cs, rs, ws)
 		emit("C17 new %d %d", rs, ws)
 		plen := func() int {
+			if rng.Intn(7) == 0 { // sizes around the pool / merge thresholds a wrapper might special-case, whatever the buffer size
+				return []int{511, 512, 513, 1023, 1024, 1025, 2048, 4097}[rng.Intn(8)]
+			}
 			switch rng.Intn(4) {
 			case 0:
 				return ws + rng.Intn(5) - 2
